@@ -211,3 +211,4 @@ def run(rep, programs):
     c03.r_split_order(rep, prog)      # a partial free of a whole huge frame splits exactly that huge frame
     from props import c15
     c15.r_reserve_before_lower(rep, prog)    # a targeted request hands its frame to Lower::get and charges that frame's tree
+    c01.r_huge_coord(rep, prog)       # counter and bits that are changed together belong to the same huge frame
